@@ -396,7 +396,7 @@ func (x *regRun) probe() string {
 			return "probe err:" + errTok(err)
 		}
 		return "probe ok"
-	case <-time.After(5 * time.Second):
+	case <-time.After(patience(5 * time.Second)):
 		x.dead = true
 		return "probe BLOCKED"
 	}
@@ -501,7 +501,7 @@ func (x *regRun) step(ws []string) (out string) {
 			}
 			x.holder = r.tx
 			return "ok"
-		case <-time.After(2 * time.Second):
+		case <-time.After(patience(2 * time.Second)):
 			close(giveUp)
 			return "err timeout"
 		}
@@ -650,14 +650,14 @@ func (x *regRun) step(ws []string) (out string) {
 				return "ok"
 			}
 			return "err invalid"
-		case <-time.After(5 * time.Second):
+		case <-time.After(patience(5 * time.Second)):
 			return "err blocked"
 		}
 	case "probe":
 		return x.probe()
 	case "active":
 		want, _ := strconv.Atoi(ws[1])
-		deadline := time.Now().Add(5 * time.Second)
+		deadline := time.Now().Add(patience(5 * time.Second))
 		for x.activeCount() != want && time.Now().Before(deadline) {
 			time.Sleep(time.Millisecond)
 		}
